@@ -6,8 +6,9 @@
 
    Reading guide.  `Panic` is a Go run-time panic under the strictest caller (cap = len), so
    "<> Panic" says that no index or slice expression the decoder evaluates reaches beyond the
-   length of the slice it was given (locality; DESIGN.md section 3).  Every statement quantifies
-   over ALL byte strings (no `bytes` hypothesis is even needed) and all previous receivers.
+   length of the slice it was given.  (The explicit statements with a tail behind the slice are in
+   Props/C03_local.v: C03_location_local, C03_ext_local.)  Every statement quantifies over ALL byte
+   strings (no `bytes` hypothesis is even needed) and all previous receivers.
    The models are those of the tree after the fix: commits recorded in known_findings.json. *)
 From JT.Base Require Import Prelude.
 From JT.Model Require Import Location LocationExt.
@@ -50,12 +51,13 @@ Proof.
 Qed.
 Print Assumptions C03_location_history.
 
-(* ---- rendering any parsed value is total (in fact: any value) ---- *)
+(* ---- rendering is total for ANY value of the three carriers, parsed or not (so in particular for
+        every successfully parsed one): the block's time re-slice body[22:28] of Encode() with its
+        capacity 30, T0x0801's Encode()[:26], and the two %b prefixes of the 0x25 / 0x2A items ---- *)
 Theorem C03_location_render :
-  (forall r body v, t0200_parse r body = Ok v ->
-     t0200_render v <> Panic /\ Forall (fun a => aval_render (a_val a) <> Panic) (t_adds v)) /\
-  (forall r body v, t0704_parse r body = Ok v -> t0704_render (b_items v) <> Panic) /\
-  (forall r body v, t0801_parse r body = Ok v -> t0801_render v <> Panic).
+  (forall v, t0200_render v <> Panic /\ Forall (fun a => aval_render (a_val a) <> Panic) (t_adds v)) /\
+  (forall its, t0704_render its <> Panic) /\
+  (forall v, t0801_render v <> Panic).
 Proof.
   repeat split; intros.
   - apply t0200_render_total.
